@@ -417,7 +417,28 @@ def run_impl(case):
             Q.mark_unfaithful_triple(*t)
         keep.append(Q)
     before = gr.snapshot(P)
-    R = pag_to_mag(P)
+    # INTERMEDIATE STATES: record the temporary CPDAG every time pag_to_mag hands it to the closure, and what comes back
+    from pywhy_graphs.algorithms import pag as pagmod
+    orig_closure = pagmod._apply_meek_rules
+    trace = []
+
+    def recording_closure(G, *args, **kw):
+        def snap():
+            hh = gr.from_mixed(G, inv)
+            return [hh["V"], hh["D"], hh["U"]]
+        inp = snap()
+        r = orig_closure(G, *args, **kw)
+        trace.append((inp, snap()))
+        return r
+
+    pagmod._apply_meek_rules = recording_closure
+    try:
+        R = pag_to_mag(P)
+        if rep == "result":
+            del trace[:]
+    finally:
+        if rep != "result":
+            pagmod._apply_meek_rules = orig_closure
     if rep == "result":
         # the caller edits the returned graph in place; a second conversion of the same PAG must not see that
         for name, layer in R.get_graphs().items():
@@ -425,18 +446,47 @@ def run_impl(case):
                 R.remove_edge(u, v, name)
         if R.number_of_nodes():
             R.remove_node(next(iter(R.nodes)))
-        R = pag_to_mag(P)
+        try:
+            R = pag_to_mag(P)
+        finally:
+            pagmod._apply_meek_rules = orig_closure
     mutated = gr.snapshot(P) != before
     h = gr.from_mixed(R, inv)
     if "X" in h:
         return {"m": h, "mutated": mutated, "verdicts": [False], "extra_layers": h["X"]}
     if case["mode"] == 1:
-        v = _oracle([sxmod.dumps([2, gr.enc(case["g"]), gr.enc(case["mag"]), gr.enc(h)])])[0][0]
+        line = sxmod.dumps([2, gr.enc(case["g"]), gr.enc(case["mag"]), gr.enc(h)])
     elif case["mode"] == 6:
-        v = _oracle([sxmod.dumps([6, gr.enc(case["g"]), gr.enc(h)])])[0]
+        line = sxmod.dumps([6, gr.enc(case["g"]), gr.enc(h)])
     else:
-        v = _oracle([sxmod.dumps([4, gr.enc(case["g"]), gr.enc(h)])])[0]
-    return {"m": h, "mutated": mutated, "verdicts": [bool(x) for x in v]}
+        line = sxmod.dumps([4, gr.enc(case["g"]), gr.enc(h)])
+    # one oracle call: the verdicts of the result, and the proved closure of every round's input (run_case mode 7)
+    outs = _oracle([line] + [sxmod.dumps([7, [inp[0], inp[1], [], inp[2], []]]) for inp, _ in trace])
+    v = outs[0][0] if case["mode"] == 1 else outs[0]
+    return {"m": h, "mutated": mutated, "verdicts": [bool(x) for x in v], "rounds": check_rounds(case["g"], trace, outs[1:])}
+
+
+def check_rounds(g, trace, closures):
+    """per round of pag_to_mag's loop: the graph handed to the closure is the previous closed graph plus EXACTLY ONE newly
+    directed edge that was undirected before (round 1: the all-undirected o-o component), and what the closure returns is the
+    closure of that input under the proved rules; the last round leaves no undirected edge.  None = all rounds fine"""
+    cs = {tuple(e) for e in g["C"]}
+    prev_D = []
+    prev_U = sorted({tuple(sorted(e)) for e in cs if (e[1], e[0]) in cs and not
+                     ((list(e) in g["D"]) or ([e[1], e[0]] in g["D"]))})
+    prev_U = [list(e) for e in prev_U]
+    for k, ((inp, out), cl) in enumerate(zip(trace, closures), 1):
+        new = [e for e in inp[1] if e not in prev_D]
+        if not all(e in inp[1] for e in prev_D) or len(new) != 1 or sorted(new[0]) not in prev_U \
+                or sorted(inp[2]) != sorted(e for e in prev_U if e != sorted(new[0])):
+            return "round%d:input-is-not-previous-closed-graph-plus-one-new-edge" % min(k, 2)
+        exp_D, exp_U = sorted(map(list, cl[0])), sorted(sorted(e) for e in cl[1])
+        if sorted(out[1]) != exp_D or sorted(out[2]) != exp_U:
+            return "round%d:output-is-not-the-proved-closure" % min(k, 2)
+        prev_D, prev_U = sorted(out[1]), sorted(out[2])
+    if prev_U:
+        return "undirected-edges-left-after-the-last-round"
+    return None
 
 
 def compare(case, impl, model):
@@ -454,6 +504,8 @@ def compare(case, impl, model):
         return None if impl["graph_ok"] else "unit:result-graph"
     if not all(impl["verdicts"]):
         return "impl:" + VERDICTS[impl["verdicts"].index(False)]
+    if impl.get("rounds"):
+        return "impl:rounds:" + impl["rounds"]
     return None
 
 
